@@ -8,8 +8,9 @@ META = {"level": "proof",
         "explanation": "Encode contracts of the leaf codecs state the appended bytes against the documented format (little-endian "
                        "two's complement of the declared width, one byte bool, 16 raw UUID bytes, Offset = UUID + uint64, string = "
                        "uint64 count of UTF-8 bytes + bytes) and are proved for all values; AuxData._to_protobuf is proved to "
-                       "write the encoding of the current value under the current type name. Containers, floats and dispatch: "
-                       "bounded comparison with the independent reference encoder/decoder."}
+                       "write the encoding of the current value under the current type name. Container encoders "
+                       "(count, then elements / pairs / fields in iteration order) are proved with loop invariants; whole nested "
+                       "values, floats and dispatch: bounded comparison with the independent reference encoder/decoder."}
 
 bounded, replay_obligation = _io.make("C08", "bytes of Serialization.encode compared byte for byte with an independent implementation "
                                       "of the documented format; reference bytes decoded by the API", 2000, 40000,
